@@ -312,7 +312,7 @@ func TestBoundedC16(t *testing.T) {
 	// every IRI the grammar accepts as a step must also be expandable once its prefix is declared (the expander has its own
 	// pattern for compact IRIs: a step that parses but cannot be expanded makes a well-formed profile fail)
 	for _, pre := range []string{"a", "Z9", "x_1", "my-ns", "0", "_", "-a", "oas3", "v1-beta", "A_B-c9"} {
-		for _, suf := range []string{"b", "B2", "p_q", "p-q", "a.b", "a\\/b", "0", "_x", "-y", "x9_-.z"} {
+		for _, suf := range []string{"b", "B2", "p_q", "p-q", "a.b", "a\\/b", "0", "_x", "-y", "x9_-.z", "a/b", "v1/items/id", "a\\b", "a\\/b/c"} {
 			iri := pre + "." + suf
 			sum.Strings++
 			if _, ok := oracle(iri); !ok {
